@@ -125,6 +125,26 @@ def marked_rules(ck):
                   "the persistent original of a node is reused under (value changed: %s, child changed: %s): a changed node is frozen as its old self" % (fv, ch), f.loc(bi))
         ck.floor("DOM", "origin reuse sites in freeze", nre, 2)
 
+    # freeze_value reports `changed = false` only for a link that already exists in persistent storage (a clone of a borrowed
+    # value, or no value at all); a link it creates itself (Link::new(InlineOrHashed::new(..))) is new data and must be
+    # reported as changed, otherwise freeze() keeps the node's persistent original and the written value is lost
+    f = getfn(ck, "sc", E, LL + "freeze_value")
+    if f:
+        nfv = 0
+        for (bi, si, it) in f.defs().get(0, []):
+            if bi not in f.reachable() or si == "t" or it["rv"].get("k") != "agg" or len(it["rv"].get("ops", [])) != 2:
+                continue
+            nfv += 1
+            k0 = op_const(it["rv"]["ops"][0])
+            flag = const_int(k0) if k0 is not None else None
+            o = f.origins(it["rv"]["ops"][1], deep=True)
+            fresh = has_call_origin(o, r"low_level::Link::<.*>::new$|Link::new$|InlineOrHashed::new$")
+            ok = not fresh or flag == 1
+            ck.ob("DEFUSE", f.path, "fresh-link-reported-as-changed#%d" % nfv, ok,
+                  "changed = %s for %s" % (flag, "a newly created link" if fresh else "an existing link / no value") if ok else
+                  "a newly created value link is returned with changed = %s: a node whose value was written keeps its persistent original" % flag, f.loc(bi))
+        ck.floor("DEFUSE", "results of freeze_value", nfv, 3)
+
     # path compression keeps the tree canonical: a node is merged into its only child exactly when it has no value and exactly
     # one child (all three collapse sites of delete / delete_prefix)
     ncol = 0
